@@ -117,11 +117,20 @@ CLAIMED = {
             "replayed on real Beat objects with Beat / int / Fraction operands; random constructions from exact and inexact inputs, "
             "operations, event lists and timing strings (through BeatValues and TimingData) are validated record by record by TLC.",
             "32-bit TLC integers: inexact inputs are exact binary fractions and short decimals; arbitrary floats are not decided."),
+    "C15": ("timingsource", "6/C15",
+            "TLC enumerates the configuration space (kind x version x chart x 3^11 chart-property states: all 7.4 M in thorough) and "
+            "checks that the selection rule is symmetric in the eleven properties and stable under irrelevant edits, and on the quotient "
+            "(property patterns x OFFSET/DISPLAYBPM states on both sides x BPMS sizes x ignore) that no field ever comes from the source "
+            "not chosen; every quotient configuration is built as real objects with distinct sentinels per side and TimingData / "
+            "displaybpm are compared with TLC's answer; random configurations over the full space with values random within each "
+            "syntactic class are validated by TLC.",
+            "sentinel values make mixing visible; displayed-BPM clause only when the chosen source has BPMS."),
 }
 
 PENDING = {}
 
 ENGINES = [
+    ("timingsource", "spec/timingsource", ["C15"], "TimingSource.tla (source rule, all-or-nothing timing data, displayed BPM classes) + MC_TimingSource + Trace_TimingSource"),
     ("beat", "spec/beat", ["C14"], "Beat.tla (exact / snapped construction, Str3 closed form, arithmetic, decimal and event-list parsing) + MC_Beat + Trace_Beat"),
     ("convert", "spec/convert", ["C16", "C17"],
      "Convert.tla (kind tables, behaviour decision, conversion folds + declarative statement) + MC_Convert (TLC BFS) + Trace_Convert"),
